@@ -321,3 +321,20 @@ def cache_bits(inst: "Inst") -> tuple:
         (s._cached_str_val is not None, s._cached_bool_val is not None, s._cached_vis is not None, s._cached_assignable is not None)
         for s in k.unique_defined_syms
     ) + tuple((c._cached_vis is not None, c._cached_selection is not core()._NO_CACHED_SELECTION) for c in k.unique_choices)
+
+
+def defaults_sig(sc) -> tuple:
+    """value-independent rendering of a symbol's / choice's defaults list (detects injected sdkconfig defaults)"""
+    c = core()
+    return tuple((c.expr_str(v) if not isinstance(v, str) else v, c.expr_str(cond)) for v, cond in sc.defaults)
+
+
+def injected(inst: "Inst", baseline: "Inst") -> bool:
+    """True iff some symbol / choice of `inst` carries defaults that differ from the tree's own (policy `sdkconfig` injection)"""
+    for a, b in zip(inst.k.unique_defined_syms, baseline.k.unique_defined_syms):
+        if defaults_sig(a) != defaults_sig(b):
+            return True
+    for a, b in zip(inst.k.unique_choices, baseline.k.unique_choices):
+        if defaults_sig(a) != defaults_sig(b):
+            return True
+    return False
